@@ -23,15 +23,40 @@ func caseEval(fi *FuncInfo, env map[string]int64, ri int) (ret *Sym, ok bool, wh
 		return v, ok
 	}
 	b := 0
+	prev := -1
+	resolved := map[*ssa.Phi]ssa.Value{}
 	for steps := 0; steps < 200; steps++ {
 		blk := fi.Fn.Blocks[b]
+		// resolve the phis of this block for the edge we came in on
+		if prev >= 0 {
+			for _, in := range blk.Instrs {
+				ph, ok := in.(*ssa.Phi)
+				if !ok {
+					break
+				}
+				for i, pr := range blk.Preds {
+					if pr.Index == prev {
+						v := ph.Edges[i]
+						if p2, ok := v.(*ssa.Phi); ok && resolved[p2] != nil {
+							v = resolved[p2]
+						}
+						resolved[ph] = v
+					}
+				}
+			}
+		}
+		prev = b
 		if fi.Cut[b] >= 0 {
 			return nil, false, "path ends in a panic"
 		}
 		last := blk.Instrs[len(blk.Instrs)-1]
 		switch t := last.(type) {
 		case *ssa.Return:
-			return fi.Sym(t.Results[ri]), true, ""
+			rv := t.Results[ri]
+			if ph, ok := rv.(*ssa.Phi); ok && resolved[ph] != nil {
+				rv = resolved[ph]
+			}
+			return fi.Sym(rv), true, ""
 		case *ssa.Jump:
 			b = blk.Succs[0].Index
 		case *ssa.If:
